@@ -114,6 +114,11 @@ class Rational(Primitive):
             return str(self._value)
         except AttributeError:  # pragma: no cover
             return "Rational(UNINITIALIZED)"
+        except ValueError:
+            # The decimal representation is too long (see sys.set_int_max_str_digits()); hexadecimal is not limited.
+            if self.is_integer():
+                return hex(self._value.numerator)
+            return "%s/%s" % (hex(self._value.numerator), hex(self._value.denominator))
 
     #
     # Unary operators.
